@@ -10,10 +10,74 @@ var heavyKinds = []int{OpMatchString, OpMatchString, OpMatchRunes, OpFindString,
 
 const defaultOpCap = 3_000_000
 
+// genC14ExitRace: histories that keep a caller arriving just when the clock goroutine is about to exit
+// (idle gaps of about "last deadline + shutdown slop"), while the clock goroutine is descheduled for up to
+// a few periods at its lock operations: the check-then-act windows of the clock's start/extend/exit logic.
+func genC14ExitRace(seed uint64, r *rng) *Scenario {
+	sc := &Scenario{Prop: "C14", Seed: seed, SchedSeed: mix64(seed, 14), OpStepCap: defaultOpCap, Mode: "exit-race"}
+	p := []int64{int64(time.Millisecond), int64(5 * time.Millisecond)}[r.n(2)]
+	sc.PeriodNs = p
+	cfg := vsim.Config{Policy: vsim.Fair, Quantum: 50 + r.i64(200), MaxSteps: 80_000_000, PoolMode: vsim.PoolRandom, MissProb: 100,
+		SyncStallProb: 100 + uint32(r.n(300)), SyncStallMax: p + r.i64(3*p), SyncStallSpawned: true}
+	if r.chance(1, 3) {
+		cfg.Policy = vsim.Adversarial
+		cfg.Quantum = 2000 + r.i64(8000)
+		cfg.SwitchProb = uint32(100 + r.n(400))
+		cfg.WakeRunProb = uint32(500 + r.n(500))
+	}
+	ncl := 1 + r.n(2)
+	s := int64(time.Second)
+	for c := 0; c < ncl; c++ {
+		cost := p / int64(400+r.n(4000))
+		if cost < 1 {
+			cost = 1
+		}
+		cl := Client{Cost: cost}
+		for round := 1 + r.n(3); round > 0; round-- {
+			// a timed call that defines when the clock will stop ...
+			f := catastrophic[r.n(len(catastrophic))]
+			maxD := min64(defaultOpCap*cost/4-3*p, 40*p)
+			if maxD < 3*p {
+				break
+			}
+			d := 2*p + r.i64(maxD-2*p)
+			first := Op{Kind: heavyKinds[r.n(len(heavyKinds))], Re: addRe(sc, ReSpec{Pat: f.Pat, Opts: f.Opts, Private: c + 1}), In: f.In, TimeoutNs: d, Heavy: true, N: -1, Repl: "<$0>"}
+			gap := s
+			if r.chance(1, 2) {
+				q := quickTimed[r.n(len(quickTimed))]
+				first = Op{Kind: OpMatchString, Re: addRe(sc, ReSpec{Pat: q.Pat, Opts: q.Opts, Private: c + 1}), In: q.In, TimeoutNs: d + 20*p, N: -1}
+				gap = d + 20*p + p + s
+			} else if v := pristine(sc.Res[first.Re], &first, defaultOpCap); !v.capped {
+				continue
+			}
+			cl.Ops = append(cl.Ops, first)
+			// ... an idle gap that ends about when it stops ...
+			cl.Ops = append(cl.Ops, Op{Kind: OpIdle, IdleNs: gap - p + r.i64(4*p)})
+			// ... and a catastrophic timed call that needs the clock
+			g := catastrophic[r.n(len(catastrophic))]
+			d2 := 2*p + r.i64(maxD-2*p)
+			second := Op{Kind: heavyKinds[r.n(len(heavyKinds))], Re: addRe(sc, ReSpec{Pat: g.Pat, Opts: g.Opts, Private: c + 1}), In: g.In, TimeoutNs: d2, Heavy: true, N: -1, Repl: "<$0>"}
+			if v := pristine(sc.Res[second.Re], &second, defaultOpCap); v.capped {
+				cl.Ops = append(cl.Ops, second)
+			}
+			if r.chance(1, 2) {
+				cl.Ops = append(cl.Ops, Op{Kind: OpIdle, IdleNs: []int64{3 * s, p, 2*s + r.i64(s)}[r.n(3)]})
+			}
+		}
+		sc.Clients = append(sc.Clients, cl)
+	}
+	sc.Cfg = cfg
+	nameOps(sc)
+	return sc
+}
+
 // genC14 builds a history of timed/untimed matches, idle gaps and StopTimeoutClock calls
 // for 1-3 clients (DESIGN §3 C14).  tier scales nothing here: runs are short by design.
 func genC14(seed uint64) *Scenario {
 	r := newRng(seed)
+	if r.chance(1, 7) {
+		return genC14ExitRace(seed, r)
+	}
 	sc := &Scenario{Prop: "C14", Seed: seed, SchedSeed: mix64(seed, 14), OpStepCap: defaultOpCap}
 	periods := []int64{int64(time.Millisecond), int64(time.Millisecond), int64(5 * time.Millisecond), int64(100 * time.Millisecond)}
 	p := periods[r.n(len(periods))]
